@@ -137,3 +137,40 @@ def check_swapped_arguments(idx: Index, rep, relpaths: Iterable[str], rule: str 
         rep.ok(rule, (m.relpath, "<module>"), None, text=f"{rel}: {n_sites} calls of repository functions by position ({len(hits)} with an argument named after another parameter)",
                what="a positional argument reaches the parameter it is named after", nontrivial=False)
     return total
+
+
+# ---------------------------------------------------------------------------------------------------
+def check_catchall_parameters(idx: Index, rep, relpaths: Iterable[str], rule: str = "K7.catch-all-forwarded") -> int:
+    """A function that declares `*args` or `**kwargs` accepts whatever the caller adds; unless its body is a stub (docstring, pass, raise) the
+    catch-all has to be read somewhere in the body - otherwise the caller's extra arguments are accepted and silently dropped (a predicate or
+    solver option passed by keyword is replaced by its default)."""
+    ex = ast.parse("def f(g, *args, **kwargs):\n    return g(1, *args)\n").body[0]
+    if [v for v in _unread_catchalls(ex)] != ["kwargs"]:
+        raise AnalysisError("catch-all rule self-check failed")
+    total = 0
+    for rel in relpaths:
+        try:
+            m = idx.module_by_relpath(rel)
+        except Exception:
+            continue
+        for f in m.functions.values():
+            node = f.node
+            if node.args.vararg is None and node.args.kwarg is None:
+                continue
+            body = [b for b in node.body if not (isinstance(b, ast.Expr) and isinstance(b.value, ast.Constant))]
+            if all(isinstance(b, (ast.Pass, ast.Raise)) for b in body):
+                continue
+            total += 1
+            unread = _unread_catchalls(node)
+            rep.decide(not unread, rule, f, node, text=f"{f.qualname}: catch-all parameter(s) {', '.join(a.arg for a in (node.args.vararg, node.args.kwarg) if a is not None)} read in the body",
+                       what="extra positional / keyword arguments a function accepts are used or passed on, not dropped",
+                       reason=f"`{'`, `'.join(unread)}` is accepted and never read: what the caller passes that way is silently ignored")
+    return total
+
+
+def _unread_catchalls(node) -> List[str]:
+    out = []
+    for va in (node.args.vararg, node.args.kwarg):
+        if va is not None and not any(isinstance(n, ast.Name) and n.id == va.arg and isinstance(n.ctx, ast.Load) for n in ast.walk(node)):
+            out.append(va.arg)
+    return out
